@@ -691,4 +691,43 @@ theorem header_cache_counterexample :
         { m1 with body := .update ⟨0, [], 0, [], []⟩ } = some (bs2, m2) ∧
       bs2.length = 23 ∧ rd16 (bs2.drop 16) = 27 := ⟨_, _, _, _, rfl, rfl, by decide, by decide⟩
 
+
+/-! ## End-of-RIB: the empty MP_UNREACH_NLRI under every ADD-PATH setting -/
+
+/-- **End-of-RIB round trip.** For every modelled family and EVERY option set — whatever the ADD-PATH
+    receive / send bits of the family are, equal or not — the attribute NewEndOfRib builds
+    (MP_UNREACH_NLRI without a route) is emitted as 6 octets and decodes back to itself, also when
+    other octets follow.  (The empty list is also inside the domain of `mp_unreach_decode_encode`;
+    this statement drops its `apRx = apTx` hypothesis, which an empty list does not need.) -/
+theorem end_of_rib_roundtrip (o : OptsX) (afi safi : Nat) (k : Kind) (w : Nat) (rest : Bytes)
+    (ha : afi < 65536) (hs : safi < 256) (hk : famKind afi safi = some (k, w)) :
+    decAttrX o (encMpUnreach o (mkMpUnreach afi safi []) ++ rest) = .ok (.unreach (mkMpUnreach afi safi [])) ∧
+    (encMpUnreach o (mkMpUnreach afi safi [])).length = 6 ∧
+    attrXLen (.unreach (mkMpUnreach afi safi [])) = 6 := by
+  have hm : mkMpUnreach afi safi [] = ⟨128, 3, afi, safi, []⟩ := by
+    simp [mkMpUnreach, sumLens, getPathAttrFlags, pathAttrFlags, FLAG_EXT]
+  rw [hm]
+  have hv : encMpUnreachVal o ⟨128, 3, afi, safi, []⟩ = be16 afi ++ [safi] := by
+    simp [encMpUnreachVal, encPathNlrisX, Nat.mod_eq_of_lt hs]
+  have hvl : (be16 afi ++ [safi]).length = 3 := by simp [be16_length]
+  refine ⟨?_, ?_, ?_⟩
+  · unfold decAttrX encMpUnreach
+    rw [hv, decAttrHdr_enc (flags := 128) (typ := 15) (by decide) (by decide) (by rw [hvl]; decide)
+      (Or.inr (by rw [hvl]; decide)) (by decide) rest]
+    simp only [show (15 : Nat) ≠ 14 by decide, if_false, if_true, hvl]
+    unfold decMpUnreachVal
+    have g2 : (be16 afi ++ [safi]).getD 2 0 = safi := by simp [be16]
+    have d3 : (be16 afi ++ [safi]).drop 3 = [] := by simp [be16]
+    have r16 := rd16_be16 afi ha [safi]
+    simp only [show ¬ (3 < 3) by decide, if_false, r16, g2, d3, hk, List.length_nil, decNlriLoop, if_true]
+  · unfold encMpUnreach
+    show (encAttrHdr 128 15 (encMpUnreachVal o ⟨128, 3, afi, safi, []⟩)).length = 6
+    rw [hv, encAttrHdr_short (flags := 128) (typ := 15) (by decide) (by decide) (by rw [hvl]; decide) (by decide)]
+    simp [hvl]
+  · simp [attrXLen, hasBit, FLAG_EXT]
+
+example : MpUnreachWF exOptsX (mkMpUnreach 2 128 []) := by decide
+example : MpUnreachWF ⟨⟨true, true, false, false⟩, []⟩ (mkMpUnreach 1 1 []) := by decide
+example : ∃ k w, famKind 2 1 = some (k, w) := ⟨_, _, rfl⟩
+
 end C04
